@@ -67,7 +67,7 @@ TApply ==
 TAfter == Is("after") /\ Unlatch(Ev.t)
 
 TReplay == /\ Is("replay") /\ Ev.i \in DOMAIN st[Ev.src].strm /\ "bufs" \in DOMAIN st[Ev.src].strm[Ev.i]
-           /\ ReplayBegin(Ev.t, Ev.c, st[Ev.src].strm[Ev.i])
+           /\ ReplayBegin(Ev.t, Ev.c, st[Ev.src].strm[Ev.i], Ev.i)
 
 \* a read inside a transaction returns committed values (rows that are live or reserved by the reader)
 TRead ==
